@@ -43,9 +43,10 @@
 (*   acall     operation a (fields as opbegin) is about to be called, in a   *)
 (*             goroutine of its own                                          *)
 (*   aret      operation a has returned: err                                 *)
-(*   aview     all operations called so far have returned: view = the        *)
-(*             destinations, rtview = the route's filter, as Table.Snapshot()*)
-(*             shows them now; snaps as in opdone                            *)
+(*   aview     all operations called so far have returned: views[x] = list x *)
+(*             as Table.Snapshot() shows it now (main = the destinations, rt *)
+(*             = the route's filter); snaps as in opdone                     *)
+(* Kind "tovl": the same on the TABLE (main = its routes, bl, rw, agg).      *)
 (* An operation that was recorded as returned before another was recorded as *)
 (* called precedes it; the driver records a call before it makes it and a    *)
 (* return after it got it, so operations that overlapped in the real run are *)
@@ -123,12 +124,12 @@ TARet == /\ Is("aret") /\ \E i \in 1..Len(ov) : ov[i].a = Ev.a /\ ~ov[i].done
 
 TAView ==
   /\ Is("aview") /\ \A i \in 1..Len(ov) : ov[i].done
-  /\ LET obs == [Last EXCEPT !["main"] = Pairs(Ev.view), !["rt"] = Pairs(Ev.rtview)]
+  /\ LET obs == [x \in DOMAIN Last |-> IF x \in DOMAIN Ev.views THEN Pairs(Ev.views[x]) ELSE Last[x]]
          sn == Ev.snaps
          clauses == <<
            IF ~Linearizable(ov, Last, obs) THEN "AdminLinearizable" ELSE "",
            IF CheckCells /\ ~OldIntact(sn) THEN "SnapshotImmutable" ELSE "",
-           IF CheckCells /\ ~NewIs(sn, "main", obs["main"]) THEN "ViewOK" ELSE "" >> IN
+           IF CheckCells /\ ~(\A x \in Lists : NewIs(sn, x, obs[x])) THEN "ViewOK" ELSE "" >> IN
      /\ bad' = First(SelectSeq(clauses, LAMBDA x : x # ""))
      /\ pub' = Published(sn)
      /\ vers' = Append(vers, obs)
